@@ -12,23 +12,25 @@ Proof. unfold Inv, settle. destruct (waiting s); cbn; auto. Qed.
 
 Lemma step_inv acc s e : Inv s -> Inv (step acc s e).
 Proof.
-  unfold Inv. intros H. destruct e as [r k|]; cbn [step].
+  unfold Inv. intros H. destruct e as [r k| |r k taken]; cbn [step].
   - destruct (mem r (waiting s)); [|exact H].
     destruct (active s); [|cbn; exact H].
     destruct (k =? 0); [|cbn; exact H].
     apply settle_inv. unfold Inv. cbn. rewrite H. reflexivity.
   - destruct (active s); cbn; exact H.
+  - destruct (active s); [|cbn; exact H].
+    destruct (mem r (waiting s) && taken && (k =? 0)); cbn; [rewrite H; reflexivity | exact H].
 Qed.
 
-Lemma init_inv acc : Inv (init acc).
+Lemma init_inv acc early : Inv (init acc early).
 Proof. unfold init. destruct (existsb (Z.eqb 0) acc); [reflexivity|]. apply settle_inv. reflexivity. Qed.
 
 Lemma fold_inv acc evs : forall s, Inv s -> Inv (fold_left (step acc) evs s).
 Proof. induction evs as [|e evs IH]; intros s H; cbn [fold_left]; [exact H|]. apply IH, step_inv, H. Qed.
 
-Lemma run_inv acc evs : Inv (run acc evs).
+Lemma run_inv acc early evs : Inv (run acc early evs).
 Proof.
-  unfold run, finish. pose proof (fold_inv acc evs _ (init_inv acc)) as H.
+  unfold run, finish. pose proof (fold_inv acc evs _ (init_inv acc early)) as H.
   destruct (active _); [apply step_inv|]; exact H.
 Qed.
 
@@ -43,17 +45,17 @@ Proof.
 Qed.
 
 (* every resource a backend gave to the pod is in what Allocate returns, whether it returns an error or not *)
-Lemma returned_is_handed acc evs : handed (run acc evs) = got (run acc evs).
+Lemma returned_is_handed acc early evs : handed (run acc early evs) = got (run acc early evs).
 Proof. apply run_inv. Qed.
 
 (* a failed ADD, rolled back with what Allocate returned, leaves nothing with the pod *)
-Lemma failed_add_leaves_nothing acc evs : failed (run acc evs) = true -> owned_after (run acc evs) = [].
-Proof. intros Hf. unfold owned_after. rewrite Hf, (run_inv acc evs). apply filter_not_mem_self. Qed.
+Lemma failed_add_leaves_nothing acc early evs : failed (run acc early evs) = true -> owned_after (run acc early evs) = [].
+Proof. intros Hf. unfold owned_after. rewrite Hf, (run_inv acc early evs). apply filter_not_mem_self. Qed.
 
 (* a successful ADD holds exactly what was returned *)
-Lemma ok_add_holds_returned acc evs : failed (run acc evs) = false -> owned_after (run acc evs) = got (run acc evs).
+Lemma ok_add_holds_returned acc early evs : failed (run acc early evs) = false -> owned_after (run acc early evs) = got (run acc early evs).
 Proof. intros Hf. unfold owned_after. rewrite Hf. apply run_inv. Qed.
 
 (* the call never outlives its context: after the run nothing is active, and it fails unless every request was answered *)
-Lemma run_not_active acc evs : active (run acc evs) = false.
+Lemma run_not_active acc early evs : active (run acc early evs) = false.
 Proof. unfold run, finish. destruct (active (fold_left _ _ _)) eqn:E; [cbn; rewrite E; reflexivity | exact E]. Qed.
